@@ -36,17 +36,24 @@ type refExpref struct {
 }
 
 type refEnv struct {
-	root any
+	root   any
+	nullMS bool // a multi-select was evaluated on a null current node
 }
 
 // refSearch is the reference for Search(expr, doc).
 func refSearch(expr string, doc any) (any, int) {
+	v, ec, _ := refSearchEnv(expr, doc)
+	return v, ec
+}
+
+func refSearchEnv(expr string, doc any) (any, int, *refEnv) {
+	env := &refEnv{root: doc}
 	n, ec := refParse(expr)
 	if ec != ecNone {
-		return nil, ec
+		return nil, ec, env
 	}
-	env := &refEnv{root: doc}
-	return env.eval(n, doc, nil)
+	v, ec := env.eval(n, doc, nil)
+	return v, ec, env
 }
 
 func refIsNumber(v any) bool {
@@ -241,6 +248,7 @@ func (e *refEnv) eval(n *rnode, cur any, sc *refScope) (any, int) {
 		if l == nil {
 			switch r.kind {
 			case rnMultiList, rnMultiHash:
+				e.nullMS = true
 				if n.kind == rnPipe {
 					return e.multiSelect(r, l, sc) // corpus: `null` | [@] is [null]
 				}
@@ -413,6 +421,7 @@ func (e *refEnv) eval(n *rnode, cur any, sc *refScope) (any, int) {
 	case rnMultiList, rnMultiHash:
 		if cur == nil {
 			// pinned only behind a pipe ([null]) and behind a dot (null); see rnSub
+			e.nullMS = true
 			return nil, ecUnspecified
 		}
 		return e.multiSelect(n, cur, sc)
